@@ -200,6 +200,28 @@ DOCS_I = [
 ]
 
 
+# ONE SchemaLoader object reading several documents from nameless file objects (no URL): every document is
+# judged on its own.  (xml, verdict, key names of the result)
+REUSE_FIRST = '<schema><key name="first"/></schema>'
+REUSE_DOCS = [
+    ('<schema><key name="ka"/><key name="kb"/></schema>', 'accept', ['ka', 'kb']),
+    ('<schema><key name="ka"/><key name="KA"/></schema>', 'reject', None),
+    ('<schema><sectiontype name="ta"/><sectiontype name="TA"/></schema>', 'reject', None),
+    ('<schema><key name="*" attribute="x"/></schema>', 'reject', None),
+    ('<schema><key name="kz" required="yes" default="1"/></schema>', 'reject', None),
+]
+
+
+# schema-level extends three files deep: only the bottom one names a key type (identifier); what the bases
+# contribute is described to the oracle under '__extends__'
+MID = ('<schema extends="deep/bottom.xml"><key name="Km"/></schema>', [])
+BOTTOM = ('<schema keytype="identifier"><key name="Kb"/></schema>', [])
+DOCS_I.append(([S('schema', extends='mid.xml'), S('key', name=H(2, 'k1')), E('key'), S('key', name=H(2, 'k2')), E('key'),
+                 E('schema')],
+                {'mid.xml': MID, 'deep/bottom.xml': BOTTOM,
+                 '__extends__': {'mid.xml': {'keytype': 'identifier', 'children': [('Kb', 'kb'), ('Km', 'km')]}}}))
+
+
 class C10(Harness):
     prop = 'C10'
     domain = 'D'
@@ -233,9 +255,11 @@ class C10(Harness):
 
     def units(self, tier):
         return [{'doc': i} for i in range(len(DOCS_Q) + len(DOCS_V) if tier == 'quick' else len(DOCS_T))] + \
-            [{'idoc': i} for i in range(len(DOCS_I))]
+            [{'idoc': i} for i in range(len(DOCS_I))] + [{'reuse': i} for i in range(len(REUSE_DOCS))]
 
     def _doc(self, unit):
+        if 'reuse' in unit:
+            return []
         if 'idoc' in unit:
             return DOCS_I[unit['idoc']][0]
         return DOCS_T[unit['doc']]
@@ -277,7 +301,23 @@ class C10(Harness):
             return inp['h_' + v[2]]
         return v
 
+    def _reuse(self, unit):
+        import ZConfig
+        from ZConfig import loader as zl
+        sl = zl.SchemaLoader()
+        try:
+            sl.loadFile(io.StringIO(REUSE_FIRST))
+            sl.loadFile(io.StringIO(REUSE_FIRST.replace('first', 'second')))
+            sch = sl.loadFile(io.StringIO(REUSE_DOCS[unit['reuse']][0]))
+        except ZConfig.SchemaError:
+            return ('reject',)
+        except Exception as e:
+            return ('crash', type(e).__name__, str(e)[:60])
+        return ('accept', sorted(k for k, info in sch if k))
+
     def observe(self, unit, inp):
+        if 'reuse' in unit:
+            return self._reuse(unit)
         import ZConfig
         from ZConfig import schema as zs, loader as zl
         evs = self.events(unit, inp)
@@ -292,7 +332,7 @@ class C10(Harness):
             instr.INET6['fn'] = stub
         store = {}
         if 'idoc' in unit:
-            store = {P.BASE + k: [v[0]] for k, v in DOCS_I[unit['idoc']][1].items()}
+            store = {P.BASE + k: [v[0]] for k, v in DOCS_I[unit['idoc']][1].items() if not k.startswith('__')}
         try:
             if concrete and store:
                 with P.mem_resources(store):
@@ -326,8 +366,12 @@ class C10(Harness):
                 res.__exit__(None, None, None)
 
     def expect(self, unit, inp, real):
+        if 'reuse' in unit:
+            d = REUSE_DOCS[unit['reuse']]
+            return ('accept', d[2]) if d[1] == 'accept' else ('reject',)
         if 'idoc' in unit:
-            return (R.check(self.events(unit, inp), {k: v[1] for k, v in DOCS_I[unit['idoc']][1].items()}),)
+            return (R.check(self.events(unit, inp), {k: (v if k.startswith('__') else v[1])
+                                                     for k, v in DOCS_I[unit['idoc']][1].items()}),)
         return (R.check(self.events(unit, inp)),)
 
     def agree(self, unit, real, exp):
